@@ -1099,3 +1099,25 @@ package kafka
 //@   option noframe
 //@   modifies heap
 //@   loop 0 step err#1 == nil ==> len(ops#1) == oParts
+
+//@ property C02
+
+// Reader bookkeeping (sequential view: no concurrent SetOffset/Close while FetchMessage runs): a message that is handed to
+// the caller advances the reader's position to its successor, so a later SetOffset to the same position is not mistaken
+// for a no-op and the committed/lag figures follow what was delivered.
+//@ func (*Reader).activateReadLag
+//@   trusted starts the lag-reporting goroutine once
+//@ func (*Reader).getTopicPartitionOffset
+//@   trusted builds the one-entry start map from r.config and r.offset
+//@ func (*Reader).start
+//@   trusted cancels the previous inner readers, bumps the version and starts one inner reader per partition
+//@   modifies r.version, r.cancel
+//@   ensures old(r.closed) ==> r.version == old(r.version)
+//@   ensures !old(r.closed) ==> r.version == old(r.version) + 1
+//@ func (*Reader).FetchMessage
+//@   option noframe
+//@   modifies heap
+//@   assume ctx.Err() is non-nil once ctx.Done() is closed (context package contract)
+//@   callsite iface Context.Err ensures result != nil
+//@   ensures m.error == nil && result1 == nil ==> r.offset == result0.Offset + 1 && r.lag == m.watermark - r.offset
+//@   loop 0 invariant true
